@@ -91,3 +91,12 @@ CHECKS["C10"] = (
     "DESIGN.md#c10",
 )
 NA.pop("C10", None)
+
+CHECKS["C17"] = (
+    "other",
+    "static analysis: ownership classification of every value stored into a copy (constructor arguments, field assignments) with recursive verification of nested copy() methods and of what constructors do with their arguments; table checks of required state and primitive parameters",
+    "Decides for every copy / __copy__ / __deepcopy__ in the repository that nothing stored into the new object is a bare reference into the original or a shallow copy of a container with mutable members; that geometry or parameters, visuals and metadata (scenes: geometry, graph, camera) reach the copy; that primitive copies receive every default parameter; and that memo entries are handed to a copy only at the reviewed sites after verification. That later edits leave the other object's computed values unchanged follows from this plus C01 and is not separately observed.",
+    "Trusted: naming tables for container / array / scalar attributes (listed in the checker); `.copy()` on an expression of unknown type is taken as an array or value copy; known finding: include_cache=True shares non-array cached objects.",
+    "DESIGN.md#c17",
+)
+NA.pop("C17", None)
